@@ -219,3 +219,9 @@ def _as_kind(kind):
 LIB["torch.tensor"] = _as_kind(1)
 LIB["torch.from_numpy"] = _as_kind(1)
 LIB["numpy.array"] = _as_kind(2)
+
+
+@lib("torch.utils.data.get_worker_info")
+def _get_worker_info(args, kwargs, st, eng):
+    """None in the main process, an info object inside a DataLoader worker"""
+    return VOpt(z3.Bool(uid("worker_info$none")), fresh(VAL, "worker_info"))
